@@ -44,8 +44,17 @@ End == /\ l <= Len(Rec) /\ Ev.ev = "hij" /\ Ev.out = "end"
        /\ prev' = prev
        /\ l' = l + 1
 
+\* a date converted out of order (random access): judged on its own, leaves the sweep state alone
+Rand == /\ l <= Len(Rec) /\ Ev.ev = "hijr" /\ Ev.out = "ret"
+        /\ Ev.rd = RD(Ev.gy, Ev.gm, Ev.gd)
+        /\ [y |-> Ev.y, m |-> Ev.m, d |-> Ev.d, bh |-> Ev.bh] = Tab(Ev.rd)
+        /\ Ev.wd = WeekdaySun1(Ev.rd) /\ Ev.wd = Ev.cwd
+        /\ Ev.txt
+        /\ prev' = prev
+        /\ l' = l + 1
+
 TraceInit == l = Start /\ prev = [rd |-> 0, y |-> 0, m |-> 0, d |-> 0]
-TraceNext == Day \/ End
+TraceNext == Day \/ End \/ Rand
 TraceSpec == TraceInit /\ [][TraceNext]_<<l, prev>>
 
 TraceAccepted ==
